@@ -97,6 +97,14 @@ func wxFa(v float64, canon string, good bool) *wAtom {
 	return &wAtom{jt: "num", canon: canon, f64: v, good: good, zero: v == 0 && !math.Signbit(v), val: true}
 }
 func wxSa(v string) *wAtom { return &wAtom{jt: "str", canon: v, str: v, good: true, zero: v == "", val: true} }
+func wxLongBytes(n int) []byte {
+	b := make([]byte, n)
+	for i := range b {
+		b[i] = byte(i*7 + 251)
+	}
+	return b
+}
+
 func wxBa(b ...byte) *wAtom {
 	return &wAtom{jt: "str", canon: base64.StdEncoding.EncodeToString(b), by: b, good: true, zero: len(b) == 0, val: true}
 }
@@ -151,6 +159,7 @@ func init() {
 	}
 	wireAtoms["bytes"] = map[string]*wAtom{
 		"zero": wxBa(), "len1": wxBa(0xfb), "len2": wxBa(0xfb, 0xff), "len3": wxBa(0xfb, 0xff, 0xfe), "len4": wxBa(0, 0x10, 0x83, 0x3f),
+		"len257": wxBa(wxLongBytes(257)...), "len1000": wxBa(wxLongBytes(1000)...),
 		"bad": wxJunk("str", "!!!!"), "badlen": wxJunk("str", "A"),
 	}
 	wireAtoms["timestamp"] = map[string]*wAtom{
